@@ -278,11 +278,9 @@ func checkC08(c *Ctx) {
 
 // checkBinOpEmission: binOpToGo = "(" Lhs Op Rhs ")" (always parenthesised, operands in order).
 func checkBinOpEmission(c *Ctx, f *FC) {
-	// normal form with the buffer inlined: three writes "(", Concat(Op, Map(toGo,[Lhs,Rhs])), ")"
-	c.expectNF(f, "C08.c", "binOpToGo", []string{
-		`seq[buf.Write(buf.New(), "("); seq[buf.Write(buf.New(), strings.Concat(p1.Op, slice.Map(p0, [p1.Lhs, p1.Rhs])))]; buf.Write(buf.New(), ")")] buf.String(buf.New())`,
-		`seq[buf.Write(buf.New(), "("); buf.Write(buf.New(), strings.Concat(p1.Op, slice.Map(p0, [p1.Lhs, p1.Rhs]))); buf.Write(buf.New(), ")")] buf.String(buf.New())`,
-	}, `emission is "(" Lhs Op Rhs ")": explicit grouping is preserved whatever Go's own precedences are`)
+	// the emission template (buffer writes and string pipelines read alike): "(" then Lhs, Op, Rhs joined, then ")"
+	c.checkPins(f, "C08.c", []pin{{"binOpToGo", "tpl", "\"(\" join(⟨p1.Op⟩; slice.Map(p0, [p1.Lhs, p1.Rhs])) \")\"",
+		`emission is "(" Lhs Op Rhs ")": explicit grouping is preserved whatever Go's own precedences are`}})
 }
 
 // checkLexemes: C08.b on the hand-written scanner scanTokenAt (typed syntax).
@@ -292,7 +290,7 @@ func checkLexemes(c *Ctx, f *FC) {
 	// re-reading of an operator character — "-" before a digit as a sign — changes how chains group)
 	if nf, fn := f.NF("nextToken"); fn != nil {
 		nf2 := strings.ReplaceAll(nf, "(Token).end", "Token.end")
-		r.Check(f.canon(nf2) == f.canon(nextTokenNF), "C08.b", "nextToken", "closed-form", c.Pos(f.M.Fset, fn.Decl.Pos()),
+		r.Check(f.canon(nf2) == f.canonSpec(nextTokenNF), "C08.b", "nextToken", "closed-form", c.Pos(f.M.Fset, fn.Decl.Pos()),
 			"the next token is what scanTokenAt scans at the end of the previous one (SPACE skipped, EOF at the end): an operator spelling is the same token in every context",
 			"nextToken's closed form changed: the token an operator spelling scans to may depend on its context; "+diffHint(nf2, nextTokenNF))
 	} else {
